@@ -294,10 +294,186 @@ def qset(rng):
     return ";".join(out) if out else "{}"
 
 
+# ----------------------------------------------------------------------------- sets with algebraic end points (op A)
+from math import isqrt
+
+_SC = 10 ** 40
+
+
+def _icbrt(n):
+    """floor of the cube root of a non-negative integer (integer Newton iteration)"""
+    if n < 2:
+        return n
+    x = 1 << ((n.bit_length() + 2) // 3)
+    while True:
+        y = (2 * x + n // (x * x)) // 3
+        if y >= x:
+            break
+        x = y
+    while x ** 3 > n:
+        x -= 1
+    while (x + 1) ** 3 <= n:
+        x += 1
+    return x
+
+
+def a_sqrt(m, sign=1, explicit=False):
+    """(numeric key, token) of +-sqrt(m), m a non-square positive integer"""
+    key = Fraction(isqrt(m * _SC * _SC), _SC) * sign
+    if explicit:
+        f = isqrt(m)
+        lo, hi = (f, f + 1) if sign > 0 else (-f - 1, -f)
+        return key, "a:%d,0,1:%d/0:%d/0" % (-m, lo, hi)
+    return key, "r:%d,0,1:%d" % (-m, 1 if sign > 0 else 0)
+
+
+def a_shift(k, m, sign):
+    """k + sign*sqrt(m): root of x^2 - 2k x + k^2 - m"""
+    key = Fraction(k) + sign * Fraction(isqrt(m * _SC * _SC), _SC)
+    return key, "r:%d,%d,1:%d" % (k * k - m, -2 * k, 1 if sign > 0 else 0)
+
+
+def a_cbrt(m):
+    """the real cube root of the integer m (not a cube)"""
+    a = abs(m)
+    key = Fraction(_icbrt(a * _SC ** 3), _SC) * (1 if m > 0 else -1)
+    return key, "r:%d,0,0,1:0" % (-m)
+
+
+def a_rat(v, rng):
+    if v.denominator == 1:
+        return v, rng.choice(["z:%d", "q:%d/1", "d:%d/0"]) % v.numerator
+    d = v.denominator
+    if d & (d - 1) == 0 and rng.random() < 0.5:
+        return v, "d:%d/%d" % (v.numerator, d.bit_length() - 1)
+    return v, "q:%d/%d" % (v.numerator, d)
+
+
+NONSQ = [2, 3, 5, 6, 7, 8, 10, 12, 15, 17, 24, 26, 35, 37, 48, 50, 63, 65, 99, 101, 120, 122, 143, 145, 1000001, 999999]
+
+
+def a_value(rng):
+    k = rng.random()
+    if k < 0.40:
+        return a_sqrt(rng.choice(NONSQ), rng.choice([1, 1, -1]), explicit=rng.random() < 0.3)
+    if k < 0.55:
+        return a_shift(rng.randint(-4, 4), rng.choice([2, 3, 5, 8]), rng.choice([1, -1]))
+    if k < 0.63:
+        return a_cbrt(rng.choice([2, 20, 7, 9, 26, 28, -20, -9, 63, 65]))
+    z = rng.randint(-6, 12)
+    j = rng.random()
+    if j < 0.5:
+        return a_rat(Fraction(z), rng)
+    return a_rat(Fraction(z) + Fraction(rng.choice([1, 1, 3, -1]), rng.choice([2, 3, 4, 8, 1000])), rng)
+
+
+def _fmt_a(ivs):
+    out = []
+    for (lo, lo_open, hi, hi_open) in ivs:
+        if lo == hi:
+            out.append("{%s}" % lo)
+        else:
+            out.append("%s%s|%s%s" % ("(" if lo_open else "[", lo, hi, ")" if hi_open else "]"))
+    return ";".join(out) if out else "{}"
+
+
+def one_integer_interval(rng, k):
+    """an interval with an algebraic end whose only integer is k (or none / k at a closed end)"""
+    below = [m for m in range((k - 1) ** 2 + 1, k * k) if k >= 1] if 1 <= k <= 12 else []
+    above = [m for m in range(k * k + 1, (k + 1) ** 2) if k >= 0] if 0 <= k <= 12 else []
+    fr = Fraction(rng.choice([0, 1, 1, 1, 3]), rng.choice([2, 4, 3, 8]))
+    shape = rng.random()
+    if shape < 0.45 and below:
+        lo = a_sqrt(rng.choice(below), 1, explicit=rng.random() < 0.4)
+        hi = a_rat(Fraction(k) + fr, rng) if rng.random() < 0.75 or not above else a_sqrt(rng.choice(above), 1)
+    elif shape < 0.8 and above:
+        hi = a_sqrt(rng.choice(above), 1, explicit=rng.random() < 0.4)
+        lo = a_rat(Fraction(k) - fr, rng) if rng.random() < 0.75 or not below else a_sqrt(rng.choice(below), 1)
+    else:
+        lo = a_shift(k, rng.choice([2, 3]), -1) if rng.random() < 0.5 else a_rat(Fraction(k) - fr, rng)
+        hi = a_shift(k, rng.choice([2, 3]), 1) if rng.random() < 0.5 else a_rat(Fraction(k) + fr, rng)
+    if lo[0] >= hi[0]:
+        return None
+    return lo, hi
+
+
+def aset(rng):
+    ivs = []
+    if rng.random() < 0.55:
+        # one to three intervals around distinct integers, each containing at most a couple of integers
+        ks = sorted(rng.sample(range(1, 12), rng.randint(1, 3)))
+        neg = rng.random() < 0.3
+        last = None
+        for k in ks:
+            r = one_integer_interval(rng, k)
+            if r is None:
+                continue
+            lo, hi = r
+            if last is not None and lo[0] <= last:
+                continue
+            last = hi[0]
+            lo_open, hi_open = rng.random() < 0.6, rng.random() < 0.5
+            ivs.append((lo, lo_open, hi, hi_open))
+        if neg:
+            # mirror: -sqrt(m) etc. only for plain square roots and rationals
+            mir = []
+            ok = True
+            for (lo, lo_open, hi, hi_open) in reversed(ivs):
+                def m1(v):
+                    key, tok = v
+                    if tok.startswith("r:") and tok.count(",") == 2 and tok.split(",")[1] == "0":
+                        c = int(tok[2:].split(",")[0])
+                        return a_sqrt(-c, -1 if tok.endswith(":1") else 1)
+                    if tok[0] in "zqd":
+                        return a_rat(-key, rng)
+                    return None
+                a, b = m1(hi), m1(lo)
+                if a is None or b is None:
+                    ok = False
+                    break
+                mir.append((a, hi_open, b, lo_open))
+            if ok:
+                ivs = mir
+        toks = [(lo[1], lo_open, hi[1], hi_open) for (lo, lo_open, hi, hi_open) in ivs]
+        if toks and rng.random() < 0.15:
+            toks.append(("z:40", True, "+inf", True))
+        if toks and rng.random() < 0.1:
+            toks.insert(0, ("-inf", True, "z:-40", rng.random() < 0.5))
+        return _fmt_a(toks)
+    # random normal-form set over a sorted sample of values
+    vals = {}
+    for _ in range(rng.randint(2, 9)):
+        key, tok = a_value(rng)
+        vals.setdefault(key, tok)
+    keys = sorted(vals)
+    ends = ["-inf"] + [vals[k] for k in keys] + ["+inf"]
+    last = len(ends) - 1
+    for _ in range(50):
+        k = rng.randint(1, min(4, last))
+        codes = sorted(rng.sample(range(1, 2 * last + 1), min(2 * k, 2 * last)))
+        if len(codes) % 2:
+            codes.pop()
+        ok = True
+        for i in range(0, len(codes), 2):
+            l, h = codes[i], codes[i + 1]
+            if l // 2 == last or h // 2 == 0 or (l // 2 == h // 2 and l // 2 in (0, last)):
+                ok = False
+        if ok:
+            break
+    else:
+        codes = []
+    toks = []
+    for i in range(0, len(codes), 2):
+        l, h = codes[i], codes[i + 1]
+        toks.append((ends[l // 2], l % 2 == 1, ends[h // 2], h % 2 == 0))
+    return _fmt_a(toks)
+
+
 # ----------------------------------------------------------------------------- entry points
 def generate(rng, tier):
     cases = ["POOL"]
     nB, nC, nQ = (6000, 1500, 2000) if tier == "quick" else (20000, 4000, 6000)
+    nA = 1500 if tier == "quick" else 6000
     for _ in range(nB):
         c1, c2 = pair(rng)
         cases.append("B * %s %s" % (fmt_set(rng, c1), fmt_set(rng, c2)))
@@ -306,6 +482,8 @@ def generate(rng, tier):
         cases.append("C %s %s" % (fmt_set(rng, c1), fmt_set(rng, c2)))
     for _ in range(nQ):
         cases.append("Q %s" % qset(rng))
+    for _ in range(nA):
+        cases.append("A %s" % aset(rng))
     if tier == "thorough":
         cases += exhaustive_cases()
     return cases
@@ -337,8 +515,8 @@ def tag(case):
         n1 = 0 if t[2] == "{}" else t[2].count(";") + 1
         n2 = 0 if t[3] == "{}" else t[3].count(";") + 1
         return "%s:%d,%d" % ("X" if _is_exh(t) else "B", min(n1, 3), min(n2, 3))
-    if t[0] == "Q" and len(t) == 2:
-        return "Q:%d" % (0 if t[1] == "{}" else min(t[1].count(";") + 1, 3))
+    if t[0] in ("Q", "A") and len(t) == 2:
+        return "%s:%d" % (t[0], 0 if t[1] == "{}" else min(t[1].count(";") + 1, 3))
     return t[0]
 
 
@@ -352,7 +530,7 @@ def nontrivial(case):
                 if c1[i] <= c2[j + 1] and c2[j] <= c1[i + 1]:
                     return True
         return False
-    if t[0] == "Q":
+    if t[0] in ("Q", "A"):
         return len(t) == 2 and t[1] != "{}"
     return t[0] == "C"
 
